@@ -107,7 +107,22 @@ pub fn driver(dir: &str, history: &str) {
     ack(&mut n, json!({"op": "append-head", "effects": [{"ins": fj(&t1)}]}));
     let t2 = store.append(Frame::builder("t", ZERO_CONTEXT).ttl(TTL::Head(1)).meta(meta("t2")).build()).unwrap();
     rt.block_on(store.wait_for_gc());
-    ack(&mut n, json!({"op": "append-head+gc", "effects": [{"ins": fj(&t2)}, {"del": t1.id.to_string()}]}));
+    // the eviction is the collector's own, unacknowledged work: it may or may not have become
+    // durable ("optdel"), until somebody removes the frame explicitly
+    ack(&mut n, json!({"op": "append-head+gc", "effects": [{"ins": fj(&t2)}, {"optdel": t1.id.to_string()}]}));
+    // explicit remove of an id the collector already took: acknowledged, hence durable
+    store.remove(&t1.id).unwrap();
+    ack(&mut n, json!({"op": "remove-collected", "effects": [{"del": t1.id.to_string()}]}));
+    // a time:N frame that expires, is collected after a read, and is then removed explicitly
+    let tt = store.append(Frame::builder("tt", ZERO_CONTEXT).ttl(TTL::Time(std::time::Duration::from_millis(3_600_000))).meta(meta("tt")).build()).unwrap();
+    ack(&mut n, json!({"op": "append-time", "effects": [{"ins": fj(&tt)}]}));
+    xs::verif::set_clock(Some(tt.id.timestamp() + 3_600_001));
+    let _ = store.read_sync(None, None, None).count();
+    rt.block_on(store.wait_for_gc());
+    xs::verif::set_clock(None);
+    ack(&mut n, json!({"op": "expire+gc", "effects": [{"optdel": tt.id.to_string()}]}));
+    store.remove(&tt.id).unwrap();
+    ack(&mut n, json!({"op": "remove-expired", "effects": [{"del": tt.id.to_string()}]}));
     // 8 remove the registration
     store.remove(&ctx.id).unwrap();
     ack(&mut n, json!({"op": "unregister", "effects": [{"del": ctx.id.to_string()}]}));
